@@ -5,6 +5,7 @@ import Mathlib.Data.List.Dedup
 import BronVerif.Lemmas.RouterProv
 import BronVerif.Lemmas.RouterToken
 import BronVerif.Lemmas.RouterFirst
+import BronVerif.Lemmas.RouterBoxes
 import BronVerif.Model.Echo
 /-!
 # C11 — message routing is exact under every delivery order; broadcast is consistent
@@ -339,14 +340,6 @@ theorem budget_le_distinct_keys (cfg : Config) (tr : List (Step C P)) :
   simp only [memberKeys, List.mem_filterMap]
   exact ⟨_, this.1, by simp [this.2]⟩
 
-/-- `mailbox.signal` only sets the token of the attached waiter -/
-theorem signal_waiter (s : State C P) (cid c : C) :
-    (signal s cid).waiter c = if c = cid then (s.waiter cid).map (fun w => { w with token := true }) else s.waiter c := by
-  unfold signal
-  cases hw : s.waiter cid with
-  | none => simp only [Option.map_none]; split <;> simp_all
-  | some w => simp only [upd_apply, Option.map_some]
-
 /-- progress: after *any* step sequence, a receive that is attached (parked or about to scan),
 whose mailbox is not poisoned and holds a payload of every requested sender, completes in its next
 scheduled steps — directly, or after consuming the wake-up token, which is then guaranteed to be
@@ -421,6 +414,19 @@ theorem progress_below_bound (cfg : Config) (tr : List (Step C P)) (cid : C) (w 
   refine ⟨pre, _, hpre, by rw [hl, hlog], collected_fst _ hall1, ?_, hstore.2⟩
   intro hid
   rw [lookupE_collected _ cid id _ hid, hstore.1]
+
+/-- **no_mailbox_leak**: after *any* step sequence the key set of the Go map `boxes` (tracked by
+`boxesStep`, which mirrors `boxFor` and the `delete` of the deferred section) has no repetitions,
+contains every correlation ID whose mailbox is in use (holds a payload, is poisoned, or has a
+receive attached), and — while the reader is alive — nothing else: completed, cancelled and failed
+receives leave no mailbox object behind, so `len(boxes)` is bounded by the undelivered messages,
+the poisoned IDs and the attached receives. -/
+theorem no_mailbox_leak (cfg : Config) (tr : List (Step C P)) :
+    let sb := runBoxes cfg tr ((init : State C P), ([] : List C))
+    sb.1 = run cfg tr (init : State C P) ∧ sb.2.Nodup ∧ (∀ cid, inUse sb.1 cid → cid ∈ sb.2) ∧
+    (sb.1.stopped = false → ∀ cid ∈ sb.2, inUse sb.1 cid) := by
+  have h := box_run (C := C) (P := P) cfg tr
+  exact ⟨runBoxes_fst cfg tr _, h.nodup, h.live, h.noleak⟩
 
 /-! ## no lost wake-up -/
 
@@ -643,6 +649,13 @@ example : (run exCfg (exTraceParked ++ [.deliver 2 7 10, .wakeToken 7, .scan 7])
 deposit of 2 -/
 example : ((run exCfg (exTraceParked ++ [.deliver 2 7 10]) (init : State Nat Nat)).waiter 7).map
     (fun w => (w.phase, w.token)) = some (.parked, true) := by decide
+
+/-- `no_mailbox_leak`: the mailbox of ID 7 exists while its message is undelivered and is gone after
+the collecting receive has detached; a cancelled receive on an empty mailbox leaves nothing -/
+example : (runBoxes exCfg [.deliver 2 7 10, .deliver 2 7 10] ((init : State Nat Nat), [])).2 = [7] := by decide
+example : (runBoxes exCfg [.deliver 2 7 10, .attach 7 [2], .scan 7, .detach 7] ((init : State Nat Nat), [])).2 = [] := by decide
+example : (runBoxes exCfg [.attach 8 [2], .scan 8, .cancel 8, .wakeCtx 8, .scan 8, .detach 8] ((init : State Nat Nat), [])).2 = [] := by
+  decide
 
 /-- a parked receive whose context is cancelled: the hypotheses of `no_lost_wakeup` and
 `cancel_loses_nothing` are satisfiable, and the payload survives -/
